@@ -72,6 +72,8 @@ def _dtype_cplx(v, default=False):
             return False
     if isinstance(v, Const) and isinstance(v.v, str):
         return v.v.startswith('c') or v.v in ('D', 'F')
+    if isinstance(v, Opaque) and isinstance(v.what, str) and v.what.startswith('dtype:'):
+        return {'complex': True, 'float': False}.get(v.what[6:])
     return None
 
 
@@ -254,9 +256,13 @@ def p_sum(itp, name, args, kw, node, st):
     r.ex = None
     if itp.d4:
         from . import charge as Q
-        if Q.is_lin(n.q):
+        if n.shape is not None and len(n.shape) == 1:
+            r.q = Q.reduce_sum(itp, n.q, n.shape[0], node)
+        elif Q.is_lin(n.q):
             itp.conflict('add', 'q', 'sum over elements whose modulation charge depends on the index (%s): a missing/extra '
                          'conjugate or a wrong index in the summand' % Q.show(n.q), node)
+            r.q = None
+        elif isinstance(n.q, tuple):
             r.q = None
     if n.shape is None:
         r.shape = None if (axis is not None and not (isinstance(axis, Const) and axis.v is None)) else ()
@@ -559,6 +565,14 @@ def p_round(itp, name, args, kw, node, st):
     if n is None:
         return mk(itp, name, v)
     r = n.copy()
+    if n.ex is not None and name.split('.')[-1] in ('round', 'rint') and not n.ex.is_integral():
+        fr = n.ex.c - (n.ex.c.numerator // n.ex.c.denominator)
+        if fr == F(1, 2) and all(c_.denominator == 1 for c_ in n.ex.t.values()) and n.ex.t:
+            # exactly half-way for every admissible size: Python / numpy round half to even, so the result is the floor for
+            # one parity of the size symbol and the ceiling for the other
+            itp.conflict('round', 'index', 'round() of the exact half-integer %s: rounding half to even gives floor and ceiling '
+                         'alternately as the size grows (e.g. 21.5 -> 22, 22.5 -> 22), so an index derived from it is off by one for '
+                         'every other size' % n.ex, node)
     if n.ex is not None:
         b = name.split('.')[-1]
         r.ex = n.ex.ceil() if b == 'ceil' else (n.ex.floor() if b == 'floor' else (n.ex if n.ex.is_integral() else None))
@@ -791,12 +805,98 @@ def p_resize(itp, name, args, kw, node, st):
     return Const(None)
 
 
+@prim('numpy.result_type', 'numpy.promote_types', 'numpy.find_common_type')
+def p_result_type(itp, name, args, kw, node, st):
+    """the promoted dtype: complex as soon as one operand is complex"""
+    kinds = []
+    for a in args:
+        n = N(a) if isinstance(a, (Num, IntV, Const)) and not (isinstance(a, Const) and isinstance(a.v, str)) else None
+        if n is not None:
+            kinds.append(n.cplx)
+        else:
+            kinds.append(_dtype_cplx(a, None))
+    if any(k is True for k in kinds):
+        return Opaque('dtype:complex')
+    if all(k is False for k in kinds):
+        return Opaque('dtype:float')
+    return Opaque('dtype:?')
+
+
+@prim('scipy.fft.next_fast_len', 'scipy.fftpack.next_fast_len', 'scipy.fftpack.helper.next_fast_len', 'scipy.signal.next_fast_len')
+def p_next_fast_len(itp, name, args, kw, node, st):
+    """the smallest 5-/11-smooth size >= n: a different number for every awkward n"""
+    Aff.SYM_MIN.setdefault('fastlen', 1)
+    USED.add('next_fast_len(n) >= n is a size of its own (not n) whenever n has a large prime factor')
+    return IntV(Aff.sym('fastlen'), taints(*args), name='fastlen')
+
+
+@prim('numpy.pad')
+def p_pad(itp, name, args, kw, node, st):
+    """1-D numpy.pad(a, (before, after), mode): lengths add; reflect / symmetric modes are exact on index maps"""
+    n = N(args[0])
+    pw = arg(args, kw, 1, 'pad_width')
+    mode = arg(args, kw, 2, 'mode', Const('constant'))
+    if n is None or n.shape is None or len(n.shape) != 1:
+        return mk(itp, 'pad', *args)
+    if isinstance(pw, Tup) and len(pw.items) == 2:
+        b, a = _int_aff(pw.items[0]), _int_aff(pw.items[1])
+    else:
+        b = a = _int_aff(pw) if pw is not None else None
+    ln = n.shape[0]
+    total = (ln + b + a) if (ln is not None and a is not None and b is not None) else None
+    r = n.copy(shape=(total,), taint=n.taint | taints(pw))
+    r.ex = None
+    r.org = None
+    if itp.d4 and not (isinstance(n.q, Aff) or n.q == 'any'):
+        r.q = None
+    m = mode.v if isinstance(mode, Const) else None
+    src = args[0] if isinstance(args[0], Num) else None
+    if src is not None and src.seg is not None and total is not None and m in ('reflect', 'symmetric'):
+        from . import segmap
+        off = 1 if m == 'reflect' else 0        # reflect does not repeat the edge sample
+        parts = []
+        if not (b.is_const() and b.c == 0):
+            p0 = segmap.take(src.seg, Aff(off), b + off)
+            parts.append(segmap.reverse(p0) if p0 is not None else None)
+        parts.append(list(src.seg))
+        if not (a.is_const() and a.c == 0):
+            p1 = segmap.take(src.seg, ln - a - off, ln - off)
+            parts.append(segmap.reverse(p1) if p1 is not None else None)
+        if all(p_ is not None for p_ in parts):
+            r.seg = segmap.concat(parts)
+    USED.add('numpy.pad(a, (b, a), mode=reflect|symmetric): mirrored copies of the edge samples (reflect skips the edge itself)')
+    return r
+
+
+@prim('numpy.resize')
+def p_npresize(itp, name, args, kw, node, st):
+    """numpy.resize(a, n): a new array filled with REPEATED copies of a (unlike ndarray.resize, which pads with zeros)"""
+    n = N(args[0])
+    if n is None or len(args) < 2:
+        return mk(itp, 'resize', *args)
+    ln = _int_aff(args[1])
+    r = n.copy(shape=(ln,), taint=n.taint | taints(args[1]))
+    r.ex = None
+    r.org = None
+    if itp.d4 and not (isinstance(n.q, Aff) or n.q == 'any'):
+        r.q = None
+    itp.events.append(('resize-repeat', node, itp.cur.qname if itp.cur else ''))
+    USED.add('numpy.resize(a, n) repeats a to fill n entries; ndarray.resize(n) pads with zeros')
+    return r
+
+
 @prim('numpy.insert')
 def p_insert(itp, name, args, kw, node, st):
     a, v = N(args[0]), N(args[2])
     if a is None or v is None:
         return mk(itp, 'insert', *args)
+    if itp.d4:
+        a0, v0 = a, v
+        a, v = a.copy(), v.copy()
+        a.q = v.q = 'any'           # the charges are combined entry by entry below
     r = num_add(itp, a, v, node, 'concat')
+    if itp.d4:
+        a, v = a0, v0
     n0 = a.shape[0] if (a.shape and a.shape[0] is not None) else None
     add = Aff(1) if v.shape == () else (v.shape[0] if v.shape else None)
     r.shape = ((n0 + add) if (n0 is not None and add is not None) else None,)
@@ -815,8 +915,20 @@ def p_insert(itp, name, args, kw, node, st):
                     r.q = new
             elif a.q == 'any':
                 r.q = None
+            elif Q.is_partial(a.q) and n0 is not None and isinstance(v.q, Aff):
+                d = {k + 1: val for k, val in a.q[1].items()}
+                d[Aff(0)] = v.q
+                r.q = Q.from_partial(d, n0 + 1)
             else:
                 r.q = Q.q_same(itp, a.q, v.q, node, 'concat')
+        elif a.q is not None and v.q is not None and v.shape == () and pos is not None and n0 is not None and pos == n0 \
+                and isinstance(v.q, Aff):
+            # appended at the end
+            d = Q.to_partial(a.q, n0)
+            if d is not None:
+                d = dict(d)
+                d[n0] = v.q
+                r.q = Q.from_partial(d, n0 + 1)
     itp.events.append(('insert', node, args[1], a.shape, v, a, itp.cur.qname if itp.cur else '', args[2]))
     return r
 
@@ -833,6 +945,7 @@ def p_concat(itp, name, args, kw, node, st):
             return mk(itp, 'concatenate', *args)
     r = None
     total = Aff(0)
+    parts = [_seq_as_num(p) for p in parts]
     for p in parts:
         n = N(p)
         if n is None:
@@ -883,6 +996,25 @@ def p_concat(itp, name, args, kw, node, st):
     r.cplx = None if any(c is None for c in cs) else any(cs)
     USED.add('concatenate/append/insert: parts must share one scaling type; lengths add')
     return r
+
+
+def _seq_as_num(p):
+    """[0]*n and short literal lists of numbers as arrays"""
+    if isinstance(p, SeqV) and p.elem is not None and p.n is not None:
+        e = N(p.elem)
+        if e is not None and e.shape == ():
+            r = e.copy(shape=(p.n,))
+            r.ex = None
+            if e.zero or (isinstance(p.elem, Const) and p.elem.v == 0):
+                r.zero = True
+                r.q = 'any'
+            return r
+    if isinstance(p, Tup) and p.items and all(isinstance(i, Const) and isinstance(i.v, (int, float)) for i in p.items):
+        z = all(i.v == 0 for i in p.items)
+        r = Num(zero_deg(), (Aff(len(p.items)),), False, zero=z)
+        r.q = 'any' if z else Aff(0)
+        return r
+    return p
 
 
 @prim('numpy.where')
@@ -1003,9 +1135,7 @@ def p_bilinear(itp, name, args, kw, node, st):
     if itp.d4:
         from . import charge as Q
         if base in ('dot', 'vdot', 'inner') and a.shape is not None and b.shape is not None and len(a.shape) == 1 and len(b.shape) == 1:
-            if Q.is_lin(r.q):
-                itp.conflict('add', 'q', 'inner product over elements whose modulation charge depends on the index (%s)' % Q.show(r.q), node)
-                r.q = None
+            r.q = Q.reduce_sum(itp, r.q, a.shape[0] if a.shape[0] is not None else b.shape[0], node, 'inner product')
         elif base in ('dot', 'vdot', 'inner') and (a.shape == () or b.shape == ()):
             pass            # scalar times array: plain product
         elif base == 'dot' and a.shape is not None and b.shape is not None and (len(a.shape), len(b.shape)) in ((1, 2), (2, 1), (2, 2)):
